@@ -216,3 +216,41 @@ def dec_message(data: bytes, check_range=False) -> Dict[str, Any]:
             out["scoped"] = dec_scoped_pdu(payload, check_range)
         return out
     raise BerError("unknown version %d" % version)
+
+
+def x690_length_octets(n: int) -> bytes:
+    """the length octets the x690 package (1.0) writes for content length n:
+    minimal definite form, except that 127 is written in the long form"""
+    if n < 127:
+        return bytes([n])
+    out = n.to_bytes((n.bit_length() + 7) // 8, "big")
+    return bytes([0x80 | len(out)]) + out
+
+
+def v3_wrappers(datagram: bytes):
+    """The TLVs of an SNMPv3 message whose headers a parse/re-serialise round
+    trip rewrites: message, header and its fields, security parameter string,
+    USM sequence and its fields, scoped PDU (or encrypted PDU string), the two
+    context strings and the PDU itself (not the PDU's inside)."""
+    root = ber.parse_all(datagram)
+    out = [root]
+    ver, hdr, sp, payload = root.children
+    out += [ver, hdr] + list(hdr.children) + [sp]
+    usm = ber.parse_all(sp.content)
+    # offsets of the inner parse are relative to sp.content; only lengths matter
+    out += [usm] + list(usm.children)
+    out.append(payload)
+    if payload.tag == 0x30:
+        out += list(payload.children)
+    return out
+
+
+def reserialisation_differs(datagram: bytes) -> bool:
+    try:
+        for t in v3_wrappers(datagram):
+            lo = t.data[t.start + 1 : t.start + t.hlen]
+            if lo != x690_length_octets(t.length):
+                return True
+    except (BerError, ValueError):
+        return False
+    return False
